@@ -48,6 +48,13 @@ FailKeepsEnv == FailKeepsEnvOn(AllLines)
 Terminates == [](run.active => <>(~run.active))
 \* C04: the result of evaluating a text depends on (calc, today, text) only - in every reachable state
 \* it equals what a fresh calculator with the same configuration returns
+\* C08: the separators occur in reading and printing only - the meaning of every line is the same under every
+\* separator configuration (true of the specification by construction; checked on every reachable state)
+SepIndependent ==
+  \A l \in AllLines : \A d \in {",", "."} : \A t \in {".", ",", ""} :
+     \A s \in DOMAIN sess :
+        LineMeaning([calc |-> [calc EXCEPT !.dec = d, !.tho = t], lang |-> sess[s].lang, today |-> today, env |-> sess[s].env], l)
+          = LineMeaning(Ctx(sess[s].lang, sess[s].env), l)
 HistoryIndependent ==
   \A t \in DOMAIN Texts :
      RunLines(Ctx("en", EmptyEnv), Texts[t], <<>>).slots
